@@ -125,8 +125,11 @@ func c13Run(c *fw.Ctx) {
 		who := x.Choose("cookie-user", len(ce.ups)+1)
 		boundTo := ""
 		if who > 0 {
-			bh := append([]string{host}, hosts[:len(hosts)-1]...)
-			boundTo = bh[x.Choose("cookie-bound-host", 5)]
+			// the cookie was obtained for this host, for another configured host, or for ANOTHER host that
+			// matches the same rewrite pattern (a sibling)
+			portS := e.Backends["s"].Addr()[strings.LastIndex(e.Backends["s"].Addr(), ":")+1:]
+			bh := []string{host, "a.sso.test", "b.sso.test", "svc-" + portS + ".sso.test", "svc-x.sso.test", "svc-static.sso.test"}
+			boundTo = bh[x.Choose("cookie-bound-host", len(bh))]
 		}
 		// ---- reference router over the resolved order ----
 		var want *proxy.UpstreamConfig
@@ -275,7 +278,7 @@ func init() {
 		ID:    "C13",
 		Level: "exploration",
 		Rule: "full product over upstream sets of 2-3 routes drawn from {simple a.sso.test, simple b.sso.test with provider_slug, simple with port, rewrite ^svc-(\\d+)\\.sso\\.test$ -> 127.0.0.1:$1, overlapping rewrite with a fixed backend, simple host that also matches that rewrite} in several orders, loaded through YAML -> SetUpstreamConfigs -> proxy.New with one recording backend per target; " +
-			"Host values {exact, upper-case, with port, port-qualified route with and without port, matching both rewrites, matching only the second, upper-case rewrite host, look-alike, matching none, empty} x cookie {none, user of each upstream} x cookie host binding {this host, three others} x cookie slug {own, target's}; " +
+			"Host values {exact, upper-case, with port, port-qualified route with and without port, matching both rewrites, matching only the second, upper-case rewrite host, look-alike, matching none, empty} x cookie {none, user of each upstream} x cookie host binding {this host, two simple hosts, a sibling host of the same rewrite pattern, two more} x cookie slug {own, target's}; " +
 			"oracle = reference router over the order in which the configuration resolved the upstreams (exact simple match first, else first matching rewrite; backend = substitution), 421 and no backend for no route, policy/cookie binding/sign-in provider of that upstream only, a session for another host never accepted; " +
 			"distinct_nontrivial = distinct (upstream set, host class, cookie user, status, backends hit)",
 		Assumptions:    []string{"case and port variants of a configured simple host may either route to that upstream or get 421 (the statement says exact match)"},
